@@ -62,7 +62,7 @@ CHECKS = {
               "the full stream. Exploration; pre-emptive races are sampled, not enumerated."),
         design='4/C12'),
     'C15': dict(
-        technique="Hypothesis property-based testing over (ruleset with OMEN model, every quit position) and generated multi-quit histories through the real main(); exact concatenation oracle against the uninterrupted stream; neighbour sessions, runs of a history in separate processes with different string-hash seeds",
+        technique="Hypothesis property-based testing over (ruleset with OMEN model, every quit position) and generated multi-quit histories through the real main(); exact concatenation oracle against the uninterrupted stream; neighbour sessions, runs of a history in separate processes with different string-hash seeds; scale part: a Markov level of 326 592 strings interrupted, resumed, followed by a later quit",
         text=("For generated rulesets with generated OMEN models a quit is requested after every guess index of the run (all positions "
               "inside every Markov level), the session is resumed with --load and on a sample interrupted again; histories with up "
               "to 4 quits are generated. With distinct probabilities the runs must concatenate to exactly the uninterrupted "
